@@ -119,6 +119,8 @@ def _transparent(script, vals, exc, how, where, in_body, f1_at, f2_at, extractor
 
     def mkplan():
         p = sc.Plan(script, vals, exc)
+        if ctx.S('unser_result') and how == 0:
+            p.final = 3
         if how:
             if where < 0:
                 p.final = how
@@ -174,7 +176,8 @@ def _shards(singles, pairs, ops, extras):
 
 
 _X = [{'f1': None, 'f2': None, 'mode': 'disabled'}, {'f1': None, 'f2': None, 'mode': 'skipped'},
-      {'f1': None, 'f2': None, 'fail_save': True}, {'f1': 'unser_value', 'f2': None, 'copy': True}]
+      {'f1': None, 'f2': None, 'fail_save': True}, {'f1': 'unser_value', 'f2': None, 'copy': True},
+      {'f1': None, 'f2': None, 'unser_result': True}]
 _QS = _shards([None, 'key_arg', 'in_handler', 'out_handler', 'unser_value', 'discard_body'],
               [('key_arg', 'discard_op')], _QOPS, _X) + [{'f1': 'key_resolver', 'f2': None, 'first': _o('R')},
                                                          {'f1': 'force_body', 'f2': None, 'first': _o('A', 1)}]
@@ -195,14 +198,14 @@ CONDITIONS = [
      'what': 'two worker threads calling interceptions inside one operation (cooperative rewrite of the real '
              'tape_recorder.py): every schedule with <= P preemptions, discard issued by a worker / an intercepted body / '
              'the operation; sharded by who discards',
-     'tiers': {'quick': {'bounds': {'STEPS': 90, 'FORCED': 4}, 'timeout': 600,
-                         'shards': [{'discard_by': d, 'preemptions': 1, 'bucket': b} for d in (None, 'worker', 'body', 'operation')
-                                    for b in ([0, 30], [30, 60], [60, 90])],
-                         'witness_shard': {'discard_by': 'worker', 'preemptions': 1, 'bucket': [0, 90]}},
-               'thorough': {'bounds': {'STEPS': 90, 'FORCED': 5}, 'timeout': 8000,
-                            'shards': [{'discard_by': d, 'preemptions': 2, 'bucket': [b, b + 5]} for d in (None, 'worker', 'body', 'operation')
-                                       for b in range(0, 90, 5)],
-                            'witness_shard': {'discard_by': 'worker', 'preemptions': 1, 'bucket': [0, 90]}}}},
+     'tiers': {'quick': {'bounds': {'STEPS': 110, 'FORCED': 4}, 'timeout': 600,
+                         'shards': [{'discard_by': d, 'preemptions': 1, 'bucket': b} for d in (None, 'worker', 'body', 'operation', 'watchdog')
+                                    for b in ([0, 30], [30, 60], [60, 110])],
+                         'witness_shard': {'discard_by': 'worker', 'preemptions': 1, 'bucket': [0, 110]}},
+               'thorough': {'bounds': {'STEPS': 110, 'FORCED': 5}, 'timeout': 8000,
+                            'shards': [{'discard_by': d, 'preemptions': 2, 'bucket': [b, b + 5]} for d in (None, 'worker', 'body', 'operation', 'watchdog')
+                                       for b in range(0, 110, 5)],
+                            'witness_shard': {'discard_by': 'worker', 'preemptions': 1, 'bucket': [0, 110]}}}},
     {'fn': 'operation_flavours', 'nontrivial': 'extractor-misbehaves',
      'what': 'metadata extractor succeeding / raising / returning junk on instance and class-level operations',
      'tiers': {'quick': {'bounds': _QB, 'timeout': 300, 'shards': [{'f1': None, 'f2': None, 'first': f} for f in [None, _o('A', 1), _o('O', 1)]],
